@@ -48,7 +48,7 @@ pub fn source_cfg(g: &mut Rng, min_items: bool) -> ProgCfg {
 
 /// Write the program fault-free and return (image, standalone blob descriptors).
 pub fn make_source(prog: &Program) -> Result<(Vec<u8>, Vec<(u64, u64)>), (String, String)> {
-    let wc = WriterCase { prog: prog.clone(), wchunk: Chunk::Full, rchunk: Chunk::Full, sink: Chunk::Full };
+    let wc = WriterCase { prog: prog.clone(), wchunk: Chunk::Full, rchunk: Chunk::Full, sink: Chunk::Full, legacy_blob_headers: false };
     let w = write_case(&wc);
     if let Some(c) = call_contradiction(&w.exec) {
         return Err(c);
